@@ -42,7 +42,7 @@ def correspondence(ctx):
         ctx.count(f"probe-stats={len(sts)}")
         ctx.case([core.tolist(sc["U"]), core.tolist(sc["z"]), core.tolist([s["f"] for s in sc["sts"]])], nontrivial=sc["C"] * sc["D"] >= 2,
                  sample={"C": sc["C"], "D": sc["D"], "rU": sc["rU"], "rV": sc["rV"], "probe_stats": len(sts), "score_model": core.dec(o["score"])})
-        inp = {k: sc[k] for k in ("C", "D", "rU", "rV", "jfa", "w", "m", "v", "U", "V", "Dd", "route", "np_ints", "layout", "sts", "y", "z")}
+        inp = {k: sc[k] for k in ("C", "D", "rU", "rV", "jfa", "w", "m", "v", "U", "V", "Dd", "route", "np_ints", "layout", "int_subspaces", "ubm_layout", "sts", "y", "z")}
         x = core.impl(lambda: np.asarray(mach.estimate_x(sts), dtype=float))
         mx = fagen.dec1(o["x"], sc["rU"])
         if isinstance(x, core.ImplError) or not core.close(mx, x, 1e-8, 1e-10):
@@ -112,6 +112,10 @@ def oracle(sc):
     ref = float(np.asarray(linear_scoring(client.reshape(C, D), mach.ubm, pooled, (U @ xref).reshape(C, D), True))[0][0])
     if not core.close(s, ref, 1e-8, 1e-9):
         return {"sig": "score-is-not-compensated-linear-score", "what": f"score {s} vs linear score of the client mean with offset U x: {ref}"}
+    # ... and the closed formula itself, evaluated here: sum_cd (client - m)/v * (F - N (m + U x)) / T (0 if no frame was counted)
+    ref2 = float(((client - m.reshape(-1)) / v.reshape(-1)) @ (F.reshape(-1) - Nv * (m.reshape(-1) + U @ xref)) / T) if T > 0 else 0.0
+    if not np.isfinite(s) or not core.close(s, ref2, 1e-7, 1e-8 * (1 + abs(ref2))):
+        return {"sig": "score-is-not-compensated-linear-score", "what": f"score {s} vs the closed formula (N = {N.tolist()}, T = {T}): {ref2}"}
     again = core.impl(lambda: float(mach.score((sc["y"], sc["z"]) if sc["jfa"] else sc["z"], sts)))
     if isinstance(again, core.ImplError) or not core.close(s, again, 1e-12, 1e-12):
         return {"sig": "score-of-the-same-probe-changes", "what": f"scoring the same list of {len(sts)} statistics twice: {s} then {again!r}"}
@@ -185,7 +189,7 @@ def search(ctx):
             f = oracle_entry(sc, arrays)
         if f and f["sig"] not in seen:
             seen.add(f["sig"])
-            f["input"] = {**{k: sc[k] for k in ("C", "D", "rU", "rV", "jfa", "w", "m", "v", "U", "V", "Dd", "route", "np_ints", "layout", "sts", "y", "z")}, "arrays": arrays}
+            f["input"] = {**{k: sc[k] for k in ("C", "D", "rU", "rV", "jfa", "w", "m", "v", "U", "V", "Dd", "route", "np_ints", "layout", "int_subspaces", "ubm_layout", "sts", "y", "z")}, "arrays": arrays}
             fails.append(f)
     return fails
 
